@@ -218,4 +218,89 @@ theorem processChar_congr (cc : CharClass) {a b : Lexer} (ch : Char) (h : PosEq 
   case byteList => exact key _ _ (armByteList_pos a0 ch r c tr tc (n + 1))
   case startByteList => exact key _ _ (armStartByteList_pos a0 ch r c tr tc (n + 1))
 
+def OutStepEq : Outcome Step → Outcome Step → Prop
+  | .ok p, .ok q => StepEq p q
+  | _, _ => False
+
+theorem armFloat_congr (cc : CharClass) {a b : Lexer} (ch : Char) (h : PosEq a b) (h1 : 1 ≤ a.textColumn)
+    (h2 : 1 ≤ b.textColumn) : OutStepEq (armFloat cc a ch) (armFloat cc b ch) := by
+  obtain ⟨e0, e3, e2, e4, e1, e5, e6, e7, e8, e9, e10⟩ := (posEq_iff a b).mp h
+  have hn1 : ¬ (a.textColumn = 0) := by omega
+  have hn2 : ¬ (b.textColumn = 0) := by omega
+  have hst : PosEq (startToken cc { a with tokenStartRow := a.textRow } '.')
+      (startToken cc { b with tokenStartRow := b.textRow } '.') :=
+    startToken_congr cc '.' (by rw [posEq_iff]; simp [*])
+  have ea : ({ a with tokenStartRow := a.textRow } : Lexer).textColumn = a.textColumn := rfl
+  have eb : ({ b with tokenStartRow := b.textRow } : Lexer).textColumn = b.textColumn := rfl
+  unfold armFloat
+  dsimp only
+  generalize startToken cc { a with tokenStartRow := a.textRow } '.' = s1 at hst ⊢
+  generalize startToken cc { b with tokenStartRow := b.textRow } '.' = s2 at hst ⊢
+  obtain ⟨f0, f3, f2, f4, f1, f5, f6, f7, f8, f9, f10⟩ := (posEq_iff s1 s2).mp hst
+  simp only [ea, eb, hn1, hn2, ↓reduceIte, currentOperator, f0, f3, e3]
+  split
+  · simp only [OutStepEq, StepEq, OptTokEq]
+    exact ⟨by rw [posEq_iff]; simp [*], trivial, trivial⟩
+  · split
+    · split
+      · simp only [OutStepEq, StepEq, OptTokEq, TokEq]
+        exact ⟨by rw [posEq_iff]; simp [*], by simp [*], trivial⟩
+      · simp only [OutStepEq, StepEq]
+        rw [posEq_iff]; simp [*]
+    · simp only [OutStepEq, StepEq, OptTokEq]
+      exact ⟨h, trivial, trivial⟩
+
+theorem armFloat_ends_without_token (cc : CharClass) (σ s : Lexer) (ch : Char) (nt : Option LexerToken)
+    (h : armFloat cc σ ch = .ok (.cont s nt true)) : nt = none := by
+  unfold armFloat at h
+  split at h
+  · cases h
+  · split at h
+    · dsimp only at h
+      split at h
+      · cases h
+      · split at h <;> cases h
+    · cases h; rfl
+
+/-- `process_char` does not depend on the position counters, in every state (in the Float state `Inv`, i.e.
+`1 ≤ text_column`, is needed on both sides for the `text_column - 1` of the float split) -/
+theorem processChar_congr_inv (cc : CharClass) {a b : Lexer} (ch : Char) (h : PosEq a b) (ha : Inv a) (hb : Inv b) :
+    OutResEq (processChar cc a ch) (processChar cc b ch) := by
+  by_cases hf : a.state = .float
+  · obtain ⟨e0, e3, e2, e4, e1, e5, e6, e7, e8, e9, e10⟩ := (posEq_iff a b).mp h
+    have hfb : b.state = .float := by rw [e1]; exact hf
+    unfold processChar
+    simp only []
+    have hpe : PosEq { a with charactersLexed := a.charactersLexed + 1 } { b with charactersLexed := b.charactersLexed + 1 } := by
+      rw [posEq_iff]; simp [*]
+    have hsa : stateStep cc { a with charactersLexed := a.charactersLexed + 1 } ch =
+        armFloat cc { a with charactersLexed := a.charactersLexed + 1 } ch := by
+      unfold stateStep
+      rw [show ({ a with charactersLexed := a.charactersLexed + 1 } : Lexer).state = .float from hf]
+    have hsb : stateStep cc { b with charactersLexed := b.charactersLexed + 1 } ch =
+        armFloat cc { b with charactersLexed := b.charactersLexed + 1 } ch := by
+      unfold stateStep
+      rw [show ({ b with charactersLexed := b.charactersLexed + 1 } : Lexer).state = .float from hfb]
+    rw [hsa, hsb]
+    have := armFloat_congr cc ch hpe (ha hf) (hb hfb)
+    cases hx : armFloat cc { a with charactersLexed := a.charactersLexed + 1 } ch <;>
+      cases hy : armFloat cc { b with charactersLexed := b.charactersLexed + 1 } ch <;>
+      rw [hx, hy] at this <;> simp only [OutStepEq] at this
+    rename_i p q
+    cases p <;> cases q <;> simp only [StepEq] at this
+    · rename_i s1 nt1 b1 s2 nt2 b2
+      obtain ⟨hpe', hte, rfl⟩ := this
+      simp only [OutResEq]
+      cases b1 with
+      | false =>
+        simp only [finishChar, Bool.false_eq_true, ↓reduceIte]
+        exact ⟨bumpColumn_congr ch hpe', hte⟩
+      | true =>
+        have hn1 := armFloat_ends_without_token cc _ _ _ _ hx
+        have hn2 := armFloat_ends_without_token cc _ _ _ _ hy
+        subst hn1 hn2
+        exact finishChar_congr cc ch true hpe'
+    · exact ⟨this, trivial⟩
+  · exact processChar_congr cc ch h hf
+
 end Garnish.Model.Lexer
